@@ -237,6 +237,7 @@ def run(ctx):
     ctx.rule("text/fixed-width", "a text field the reader slices with fixed width w is written with a format that yields exactly w characters over the field's declared range")
     ctx.rule("optional/deref", "a field the reader may set to None is not dereferenced by the writer under the same flags")
     ctx.rule("shape/coverage", "at least the hand-confirmed number of distinct shapes per PDU family is analysed")
+    ctx.rule("checksum/verdict", "HRNP.verify_checksum accepts a frame received with its correct checksum and rejects every single-bit corruption of the checksum field and its all-bits inversion — constant evaluation of the real decoder on crafted frames whose correct checksum is 0x0000, 0x0001, 0x8000, 0xFFFE")
     ctx.rule("checksum/no-carry-dropped", "HRNP ones-complement sum: by interval analysis over all packets the length field allows, every mask keeps all bits of its operand or is the end-around-carry idiom, "
                                           "and the value that is complemented lies in [0, 0xFFFF]")
     sd = seeds(repo)
@@ -351,7 +352,10 @@ def run(ctx):
         ctx.coverage("shape/coverage", fam, fam_count.get(fam, 0), need, f"{fam_count.get(fam, 0)} shapes analysed, {need} confirmed by hand", "")
     ctx.extra.pop("_seen", None)
     text_rules(ctx, repo)
-    checksum_carry_rule(ctx, repo)
+    with ctx.guard("HRNP checksum carry analysis"):
+        checksum_carry_rule(ctx, repo)
+    with ctx.guard("HRNP checksum verdict"):
+        hrnp_verdict_rule(ctx, repo, sd)
     ctx.require("shape/roundtrip-fields", 20)
     ctx.require("frame/hdap", 10)
     ctx.require("frame/hrnp", 4)
@@ -758,6 +762,87 @@ def text_rules(ctx, repo):
         ctx.ob("text/flag-distinguished", f"{gci.qualname} | {fld}", not bare,
                (f"truthiness of the field is tested at {bare[:3]}: it is the same for all declared values {vals}" if bare else f"declared values {vals}: never tested for mere truthiness"), wr.loc)
     ctx.coverage("text/flag-distinguished", f"{gci.qualname} | declared single-character flags", len(lit), 3, f"{len(lit)} Literal-typed text fields", wr.loc)
+
+
+def hrnp_reference_checksum(frame: bytes) -> int:
+    """the checker's own ones-complement checksum of an HRNP frame: octets 0..9 and 12.. as big-endian 16-bit words (an odd tail
+    padded with a zero octet), end-around carry folded, complemented"""
+    data = frame[:10] + frame[12:]
+    if len(data) % 2:
+        data += b"\x00"
+    acc = sum(int.from_bytes(data[i:i + 2], "big") for i in range(0, len(data), 2))
+    while acc >> 16:
+        acc = (acc & 0xFFFF) + (acc >> 16)
+    return ~acc & 0xFFFF
+
+
+def hrnp_verdict_rule(ctx, repo, captures):
+    """how verify_checksum turns the computed value into its verdict — the part the shape analysis treats structurally — decided by
+    CONSTANT evaluation of the real decoder on crafted frames: a captured header-only frame with its packet number chosen so that
+    the correct checksum takes the boundary values 0x0000, 0xFFFF-adjacent and an ordinary value, received (a) correctly,
+    (b) with each single bit of the checksum field inverted, (c) as the ones-complement 'other zero' (0xFFFF for 0x0000)"""
+    hr = repo.cls("hytera.pdu.hrnp", "HRNP")
+    fb = repo.find_method(hr, "from_bytes")
+    base = next((raw for _, raw in captures if len(raw) == 12 and raw[:1] == b"\x7e" and raw[8:10] == b"\x00\x0c"), None)
+    if base is None:
+        raise AnalysisError("no captured header-only HRNP frame (12 octets) to craft the verdict cases from")
+    I = Interp(repo)
+    install(I, repo, concrete=True)
+
+    def verdict(frame):
+        def run_v(st):
+            I.st = st
+            return I.call(fb, [frame], {})
+        res = explore(run_v, max_paths=4)
+        if len(res) != 1:
+            raise AnalysisError(f"HRNP.from_bytes on a constant frame: {len(res)} paths")
+        k, v = res[0][1]
+        if k == "raise":
+            return "raises " + v.exc
+        if k != "ok" or not isinstance(v, AObj):
+            raise AnalysisError(f"HRNP.from_bytes on a constant frame: {k}: {v}")
+        c = v.attrs.get("checksum_correct")
+        if isinstance(c, AInt):
+            cc = I.I_const(c) if hasattr(I, "I_const") else None
+            c = bool(cc) if cc is not None else c
+        if c not in (True, False):
+            raise AnalysisError(f"checksum_correct of a constant frame is {c!r}")
+        return c
+    wanted = {}
+    for pn in range(65536):
+        f = base[:6] + pn.to_bytes(2, "big") + base[8:]
+        cs = hrnp_reference_checksum(f)
+        for label, target in (("checksum 0x0000", 0x0000), ("checksum 0x0001", 0x0001), ("checksum 0xfffe", 0xFFFE), ("checksum 0x8000", 0x8000)):
+            if cs == target and label not in wanted:
+                wanted[label] = f
+        if len(wanted) == 4:
+            break
+    if "checksum 0x0000" not in wanted:
+        raise AnalysisError("no packet number gives the boundary checksum 0x0000 for the captured header")
+    n_cases = 0
+    for label, f in sorted(wanted.items()):
+        cs = hrnp_reference_checksum(f)
+        bad = []
+        good = f[:10] + cs.to_bytes(2, "big") + f[12:]
+        if verdict(good) is not True:
+            bad.append(f"the correct checksum {cs:#06x} is not accepted ({verdict(good)})")
+        for bit in range(16):
+            rx = cs ^ (1 << bit)
+            if rx == 0:
+                continue     # an all-zero field is the constructor's 'please generate' sentinel (see C04's known findings)
+            n_cases += 1
+            r = verdict(f[:10] + rx.to_bytes(2, "big") + f[12:])
+            if r is not False:
+                bad.append(f"received {rx:#06x} (bit {bit} of the checksum field inverted) gives {r}")
+        other = cs ^ 0xFFFF
+        if other != 0:
+            n_cases += 1
+            r = verdict(f[:10] + other.to_bytes(2, "big") + f[12:])
+            if r is not False:
+                bad.append(f"received {other:#06x} (every bit of the checksum field inverted: the ones-complement 'other zero' when the sum is 0 / 0xFFFF) gives {r}")
+        ctx.ob("checksum/verdict", f"HRNP.verify_checksum | {label} | frame {f[:10].hex()}", not bad, "; ".join(bad[:3]) or "accepted when received correctly, rejected for each of the 16 single-bit corruptions and the all-bits inversion", fb.loc)
+    ctx.extra["hrnp_verdict_cases"] = n_cases
+    ctx.coverage("checksum/verdict", "crafted boundary frames", len(wanted), 3, f"{len(wanted)} boundary checksums crafted", fb.loc)
 
 
 def hrnp_sum_host(repo):
